@@ -203,8 +203,12 @@ DRAWS = {'low': lambda r: (lambda lo, hi, k: [lo] * k), 'high': lambda r: (lambd
 def space_check(n, d, lb, ub, na, mode, raw, r, int_pos=False):
     """Construct a HyperSpace (scripted uniform draws), overwrite the positions with `raw`, enforce the limits."""
     msg = None
-    with hlib.ScriptedUniform(DRAWS[mode](r)):
-        s = HyperSpace(n_agents=na, n_variables=n, n_dimensions=d, n_iterations=1, lower_bound=lb, upper_bound=ub)
+    try:
+        with hlib.ScriptedUniform(DRAWS[mode](r)):
+            s = HyperSpace(n_agents=na, n_variables=n, n_dimensions=d, n_iterations=1, lower_bound=lb, upper_bound=ub)
+    except Exception as ex:  # noqa: BLE001
+        # lb <= ub, finite, n_variables entries each: a configuration inside the property's quantifier (degenerate ranges included)
+        return 'HyperSpace(lower_bound=%r, upper_bound=%r) raised %s: %s' % (list(lb), list(ub), type(ex).__name__, str(ex)[:120])
     for ag in s.agents:
         if ag.position.shape != (n, d) or not in_unit(ag.position):
             msg = 'a freshly initialised agent is outside the unit box: %r' % ag.position.tolist()
@@ -266,7 +270,10 @@ def run_check(optimizer, n, d, lb, ub, np_seed):
     f = make_objective(lb, ub, seen)
     np.random.seed(np_seed)
     opt = {'PSO': PSO, 'SCA': SCA}[optimizer]()
-    s = HyperSpace(n_agents=4, n_variables=n, n_dimensions=d, n_iterations=6, lower_bound=lb, upper_bound=ub)
+    try:
+        s = HyperSpace(n_agents=4, n_variables=n, n_dimensions=d, n_iterations=6, lower_bound=lb, upper_bound=ub)
+    except Exception as ex:  # noqa: BLE001
+        return 'HyperSpace(lower_bound=%r, upper_bound=%r) raised %s: %s' % (list(lb), list(ub), type(ex).__name__, str(ex)[:120]), 0
     try:
         Opytimizer(space=s, optimizer=opt, function=Function(pointer=f)).start()
     except Exception as ex:  # noqa: BLE001
